@@ -331,6 +331,30 @@ theorem C04_ccb_unique_by_triple (rows : List CompBondRow) :
   ⟨uniqueRows_nodup rows [], fun x hx => (uniqueRows_sub rows [] x hx).1,
    fun x hx => uniqueRows_covers rows [] x hx (by simp), by decide⟩
 
+/-- **A reused block does not leak the previous structure; a refused structure changes nothing.**
+Writing a structure that has a `BondList` into a block that already holds another structure gives
+exactly the block a fresh file would get (no stale `struct_conn` / `chem_comp_bond` / `cell`); without
+a `BondList` only the bond categories of the old block survive, `atom_site` and `cell` are the new
+ones; and when `set_structure` raises, no new block is produced at all (the file keeps the old one). -/
+theorem C04_reused_block (old : Block) (s : Structure) (incl : Bool) :
+    (s.bonds ≠ none → writeInto old s incl = writeBlock s incl) ∧
+    (∀ b, writeBlock s incl = .ok b → ∃ b', writeInto old s incl = .ok b' ∧ b'.site = b.site ∧ b'.cell = b.cell) ∧
+    (∀ e, writeBlock s incl = .error e → writeInto old s incl = .error e) := by
+  refine ⟨?_, ?_, ?_⟩
+  · intro h
+    unfold writeInto
+    cases hb : s.bonds with
+    | none => exact absurd hb h
+    | some bs =>
+      cases hw : writeBlock s incl <;> simp [bind, Except.bind, pure, Except.pure]
+  · intro b hw
+    unfold writeInto
+    rw [hw]
+    cases s.bonds <;> exact ⟨_, rfl, rfl, rfl⟩
+  · intro e hw
+    unfold writeInto
+    rw [hw]; rfl
+
 /-! ## Altloc -/
 
 /-- **`first` policy is exact** (per residue): an atom is kept iff it has no altloc id or its id
